@@ -21,6 +21,9 @@ import (
 )
 
 var (
+	// curTx: the caller-managed transaction that the following "tx" steps run in (nil: one
+	// transaction per step)
+	curTx  *redka.Tx
 	lastT1 int64
 	seq    int
 	out    *bufio.Writer
@@ -87,6 +90,10 @@ func runStepQ(db *redka.DB, mode string, st step, quiet bool) {
 			fail("pre-dump", derr)
 		}
 		e := &env{r: redis.RedkaDB(db), db: db}
+		if st.prep != nil {
+			st.prep(e)
+			time.Sleep(3 * time.Millisecond)
+		}
 		t0 = nowMs()
 		var raw string
 		done := make(chan struct{})
@@ -120,7 +127,7 @@ func runStepQ(db *redka.DB, mode string, st step, quiet bool) {
 		}
 		res = raw
 	case "tx":
-		err := db.Update(func(tx *redka.Tx) error {
+		body := func(tx *redka.Tx) error {
 			rawTx := redka.VerifRawTx(tx)
 			var err error
 			pre, err = takeDump(rawTx)
@@ -128,6 +135,10 @@ func runStepQ(db *redka.DB, mode string, st step, quiet bool) {
 				return err
 			}
 			e := &env{r: redis.RedkaTx(tx), db: db, inTx: true}
+			if st.prep != nil {
+				st.prep(e)
+				time.Sleep(3 * time.Millisecond)
+			}
 			t0 = nowMs()
 			func() {
 				defer func() {
@@ -143,7 +154,13 @@ func runStepQ(db *redka.DB, mode string, st step, quiet bool) {
 				views, err = takeViews(rawTx, post)
 			}
 			return err // nil: commit whatever the operation reported
-		})
+		}
+		var err error
+		if curTx != nil {
+			err = body(curTx) // one of several operations inside a transaction opened by the caller (txn traces)
+		} else {
+			err = db.Update(body)
+		}
 		if err != nil {
 			fail("tx", err)
 		}
@@ -264,9 +281,32 @@ func main() {
 		db := openDB()
 		m := *mode
 		if m == "mix" {
-			m = []string{"db", "tx"}[rnd.Intn(2)]
+			m = []string{"db", "tx", "txn"}[rnd.Intn(3)]
 		}
 		g := &gen{rnd: rnd, hostile: *hostile, families: strings.Split(*fams, ","), dbLevel: m == "db"}
+		if m == "txn" {
+			// caller-managed transactions of 2..6 operations each; every operation is still one
+			// Hoare triple judged at Tx level (dumps are read through the transaction's own handle)
+			fmt.Fprintf(out, "# trace %d tx\n", t)
+			for i := 0; i < *length; {
+				n := 2 + rnd.Intn(5)
+				err := db.Update(func(tx *redka.Tx) error {
+					curTx = tx
+					defer func() { curTx = nil }()
+					for j := 0; j < n && i < *length; j++ {
+						runStep(db, "tx", g.next())
+						i++
+					}
+					return nil
+				})
+				if err != nil {
+					fmt.Fprintln(os.Stderr, "txn:", err)
+					os.Exit(2)
+				}
+			}
+			db.Close()
+			continue
+		}
 		fmt.Fprintf(out, "# trace %d %s\n", t, m)
 		for i := 0; i < *length; i++ {
 			if rnd.Intn(40) == 0 {
